@@ -42,14 +42,29 @@ func pat(k, n, salt int) []byte {
 func hx(b []byte) string { return hex.EncodeToString(b) }
 
 func lenClass(n int) string {
-	switch {
-	case n == 0:
-		return "empty-plaintext"
-	case n%16 == 0:
-		return "block-aligned-plaintext"
-	default:
-		return "partial-block-plaintext"
+	if n%16 == 0 {
+		return "block-aligned-plaintext" // includes the empty plaintext: a full padding block is needed
 	}
+	return "partial-block-plaintext"
+}
+
+// laySig makes signatures that name a layout only when the failure is specific to it: a failure
+// kind already seen for the same input in the fresh layout keeps the plain signature, so one
+// defect gives one signature and an aliasing-only defect a different one.
+type laySig struct{ failed map[string]bool }
+
+func (s *laySig) sig(base string, lay int) string {
+	if lay == 0 {
+		if s.failed == nil {
+			s.failed = map[string]bool{}
+		}
+		s.failed[base] = true
+		return base
+	}
+	if s.failed[base] {
+		return base
+	}
+	return base + "/" + layNames[lay] + "-only"
 }
 
 // ---- independent oracles -------------------------------------------------------------------
@@ -265,6 +280,7 @@ func cbcAll(r *common.Run, a *agg) {
 				}
 				pt := pat(pp, n, 0)
 				want := stdCBC(key, iv, pt)
+				var ls laySig
 				for lay := 0; lay < 3; lay++ {
 					ev++
 					if lay > 0 || n%16 == 0 {
@@ -272,7 +288,7 @@ func cbcAll(r *common.Run, a *agg) {
 					}
 					rank := int64(n)*100 + int64(lay)*10 + int64(pp)
 					c := map[string]any{"key": hx(key), "iv": hx(iv), "plaintext": hx(pt), "layout": layNames[lay]}
-					cls := layNames[lay] + "/" + lenClass(n)
+					cls := lenClass(n)
 					encLen := cryptz.AESCBCEncryptLen(pt)
 					if encLen != len(want) {
 						continue // reported by lenHelpers; a dst of the wrong size is outside the doc
@@ -281,18 +297,18 @@ func cbcAll(r *common.Run, a *agg) {
 					var err error
 					_, st, p := common.Catch(func() { err = cryptz.AESCBCEncrypt(b.dst, b.src, key, iv) })
 					if p {
-						l.report("AESCBCEncrypt|panic|"+cls, rank, "AESCBCEncrypt panicked at "+common.PanicSite(st), map[string]any{"case": c, "stack": st}, "")
+						l.report(ls.sig("AESCBCEncrypt|panic|"+cls, lay), rank, "AESCBCEncrypt panicked at "+common.PanicSite(st), map[string]any{"case": c, "stack": st}, "")
 						continue
 					}
 					if err != nil {
-						l.report("AESCBCEncrypt|error-on-valid|"+cls, rank, fmt.Sprintf("AESCBCEncrypt returned %v for a %d-byte key and 16-byte IV", err, s.ks), c, "")
+						l.report(ls.sig("AESCBCEncrypt|error-on-valid|"+cls, lay), rank, fmt.Sprintf("AESCBCEncrypt returned %v for a %d-byte key and 16-byte IV", err, s.ks), c, "")
 						continue
 					}
 					if !bytes.Equal(b.dst, want) {
-						l.report("AESCBCEncrypt|wrong-ciphertext|"+cls, rank, fmt.Sprintf("AESCBCEncrypt wrote %s, standard AES-CBC over the PKCS#7-padded plaintext is %s", hx(b.dst), hx(want)), c, "")
+						l.report(ls.sig("AESCBCEncrypt|wrong-ciphertext|"+cls, lay), rank, fmt.Sprintf("AESCBCEncrypt wrote %s, standard AES-CBC over the PKCS#7-padded plaintext is %s", hx(b.dst), hx(want)), c, "")
 					}
 					if b.outside() {
-						l.report("AESCBCEncrypt|writes-outside-dst|"+cls, rank, "AESCBCEncrypt changed bytes outside dst[:AESCBCEncryptLen]", c, "")
+						l.report(ls.sig("AESCBCEncrypt|writes-outside-dst|"+cls, lay), rank, "AESCBCEncrypt changed bytes outside dst[:AESCBCEncryptLen]", c, "")
 					}
 					// decrypt the standard ciphertext in the same layout
 					d := layout(lay, want, cryptz.AESCBCDecryptLen(want))
@@ -300,18 +316,18 @@ func cbcAll(r *common.Run, a *agg) {
 					_, st, p = common.Catch(func() { got, err = cryptz.AESCBCDecrypt(d.dst, d.src, key, iv) })
 					c2 := map[string]any{"key": hx(key), "iv": hx(iv), "ciphertext": hx(want), "plaintext": hx(pt), "layout": layNames[lay]}
 					if p {
-						l.report("AESCBCDecrypt|panic|"+cls, rank, "AESCBCDecrypt panicked at "+common.PanicSite(st), map[string]any{"case": c2, "stack": st}, "")
+						l.report(ls.sig("AESCBCDecrypt|panic|"+cls, lay), rank, "AESCBCDecrypt panicked at "+common.PanicSite(st), map[string]any{"case": c2, "stack": st}, "")
 						continue
 					}
 					if err != nil {
-						l.report("AESCBCDecrypt|error-on-valid|"+cls, rank, fmt.Sprintf("AESCBCDecrypt of a standard AES-CBC message returned %v", err), c2, "")
+						l.report(ls.sig("AESCBCDecrypt|error-on-valid|"+cls, lay), rank, fmt.Sprintf("AESCBCDecrypt of a standard AES-CBC message returned %v", err), c2, "")
 						continue
 					}
 					if got != n || got > len(d.dst) || !bytes.Equal(d.dst[:min(got, len(d.dst))], pt) {
-						l.report("AESCBCDecrypt|wrong-plaintext|"+cls, rank, fmt.Sprintf("AESCBCDecrypt returned n=%d dst[:n]=%s, want n=%d %s", got, hx(d.dst[:min(max(got, 0), len(d.dst))]), n, hx(pt)), c2, "")
+						l.report(ls.sig("AESCBCDecrypt|wrong-plaintext|"+cls, lay), rank, fmt.Sprintf("AESCBCDecrypt returned n=%d dst[:n]=%s, want n=%d %s", got, hx(d.dst[:min(max(got, 0), len(d.dst))]), n, hx(pt)), c2, "")
 					}
 					if d.outside() {
-						l.report("AESCBCDecrypt|writes-outside-dst|"+cls, rank, "AESCBCDecrypt changed bytes outside dst", c2, "")
+						l.report(ls.sig("AESCBCDecrypt|writes-outside-dst|"+cls, lay), rank, "AESCBCDecrypt changed bytes outside dst", c2, "")
 					}
 				}
 			}
@@ -326,6 +342,13 @@ func cbcAll(r *common.Run, a *agg) {
 
 var nonceLens = []int{12, 1, 16}
 var aadLens = []int{0, 1, 17}
+
+func nonceClass(nl int) string {
+	if nl == 12 {
+		return "nonce-12"
+	}
+	return "nonce-not-12"
+}
 
 func gcmAll(r *common.Run, a *agg) {
 	sc := newSec("gcmAll")
@@ -363,13 +386,14 @@ func gcmAll(r *common.Run, a *agg) {
 						}
 						pt := pat(pp, n, 0)
 						want := aead.Seal(nil, nonce, pt, aad)
+						var ls laySig
 						for lay := 0; lay < 3; lay++ {
 							ev++
 							if lay > 0 {
 								nt++
 							}
 							rank := int64(n)*1000 + int64(al)*10 + int64(lay)
-							cls := layNames[lay] + fmt.Sprintf("/nonce-%d", s.nl)
+							cls := nonceClass(s.nl)
 							c := map[string]any{"key": hx(key), "nonce": hx(nonce), "aad": hx(aad), "plaintext": hx(pt), "layout": layNames[lay]}
 							encLen := cryptz.AESGCMEncryptLen(pt)
 							if encLen != len(want) {
@@ -379,18 +403,18 @@ func gcmAll(r *common.Run, a *agg) {
 							var err error
 							_, st, p := common.Catch(func() { err = cryptz.AESGCMEncrypt(b.dst, b.src, key, nonce, aad) })
 							if p {
-								l.report("AESGCMEncrypt|panic|"+cls, rank, "AESGCMEncrypt panicked at "+common.PanicSite(st), map[string]any{"case": c, "stack": st}, "")
+								l.report(ls.sig("AESGCMEncrypt|panic|"+cls, lay), rank, "AESGCMEncrypt panicked at "+common.PanicSite(st), map[string]any{"case": c, "stack": st}, "")
 								continue
 							}
 							if err != nil {
-								l.report("AESGCMEncrypt|error-on-valid|"+cls, rank, fmt.Sprintf("AESGCMEncrypt returned %v", err), c, "")
+								l.report(ls.sig("AESGCMEncrypt|error-on-valid|"+cls, lay), rank, fmt.Sprintf("AESGCMEncrypt returned %v", err), c, "")
 								continue
 							}
 							if !bytes.Equal(b.dst, want) {
-								l.report("AESGCMEncrypt|wrong-ciphertext|"+cls, rank, fmt.Sprintf("AESGCMEncrypt wrote %s, gcm.Seal gives %s", hx(b.dst), hx(want)), c, "")
+								l.report(ls.sig("AESGCMEncrypt|wrong-ciphertext|"+cls, lay), rank, fmt.Sprintf("AESGCMEncrypt wrote %s, gcm.Seal gives %s", hx(b.dst), hx(want)), c, "")
 							}
 							if b.outside() {
-								l.report("AESGCMEncrypt|writes-outside-dst|"+cls, rank, "AESGCMEncrypt changed bytes outside dst[:AESGCMEncryptLen]", c, "")
+								l.report(ls.sig("AESGCMEncrypt|writes-outside-dst|"+cls, lay), rank, "AESGCMEncrypt changed bytes outside dst[:AESGCMEncryptLen]", c, "")
 							}
 							decLen := cryptz.AESGCMDecryptLen(want)
 							if decLen != n {
@@ -400,18 +424,18 @@ func gcmAll(r *common.Run, a *agg) {
 							_, st, p = common.Catch(func() { err = cryptz.AESGCMDecrypt(d.dst, d.src, key, nonce, aad) })
 							c2 := map[string]any{"key": hx(key), "nonce": hx(nonce), "aad": hx(aad), "ciphertext": hx(want), "plaintext": hx(pt), "layout": layNames[lay]}
 							if p {
-								l.report("AESGCMDecrypt|panic|"+cls, rank, "AESGCMDecrypt panicked at "+common.PanicSite(st), map[string]any{"case": c2, "stack": st}, "")
+								l.report(ls.sig("AESGCMDecrypt|panic|"+cls, lay), rank, "AESGCMDecrypt panicked at "+common.PanicSite(st), map[string]any{"case": c2, "stack": st}, "")
 								continue
 							}
 							if err != nil {
-								l.report("AESGCMDecrypt|error-on-valid|"+cls, rank, fmt.Sprintf("AESGCMDecrypt of a gcm.Seal message returned %v", err), c2, "")
+								l.report(ls.sig("AESGCMDecrypt|error-on-valid|"+cls, lay), rank, fmt.Sprintf("AESGCMDecrypt of a gcm.Seal message returned %v", err), c2, "")
 								continue
 							}
 							if !bytes.Equal(d.dst, pt) {
-								l.report("AESGCMDecrypt|wrong-plaintext|"+cls, rank, fmt.Sprintf("AESGCMDecrypt wrote %s, want %s", hx(d.dst), hx(pt)), c2, "")
+								l.report(ls.sig("AESGCMDecrypt|wrong-plaintext|"+cls, lay), rank, fmt.Sprintf("AESGCMDecrypt wrote %s, want %s", hx(d.dst), hx(pt)), c2, "")
 							}
 							if d.outside() {
-								l.report("AESGCMDecrypt|writes-outside-dst|"+cls, rank, "AESGCMDecrypt changed bytes outside dst", c2, "")
+								l.report(ls.sig("AESGCMDecrypt|writes-outside-dst|"+cls, lay), rank, "AESGCMDecrypt changed bytes outside dst", c2, "")
 							}
 						}
 					}
@@ -721,18 +745,33 @@ func pkcs7Malformed(r *common.Run, a *agg) {
 			if p || (ok && (err != nil || len(out) != wn || !bytes.Equal(out, d[:wn]))) || (!ok && err == nil) {
 				cls := padClass(d, b)
 				rank := int64(b)*1000000 + int64(len(d))*1000 + int64(d[len(d)-1])
-				c := map[string]any{"block_size": b, "data": hx(d), "family": fam}
-				t := fmt.Sprintf("func TestReplay(t *testing.T) { d, _ := hex.DecodeString(%q); out, err := cryptz.PKCS7UnPadding(d, %d); t.Log(len(out), err) }", hx(d), b)
+				var sig, what string
 				switch {
 				case p:
-					l.report("PKCS7UnPadding|panic|"+cls, rank, "PKCS7UnPadding panicked at "+common.PanicSite(st), map[string]any{"case": c, "stack": st}, t)
+					sig = "PKCS7UnPadding|panic|" + cls
 				case ok && err != nil:
-					l.report("PKCS7UnPadding|error-on-valid", rank, fmt.Sprintf("PKCS7UnPadding returned %v for a correctly padded input", err), c, t)
+					sig = "PKCS7UnPadding|error-on-valid"
 				case ok:
-					l.report("PKCS7UnPadding|wrong-result|valid", rank, fmt.Sprintf("PKCS7UnPadding returned %d bytes, want the first %d", len(out), wn), c, t)
+					sig = "PKCS7UnPadding|wrong-result|valid"
 				default:
-					l.report("PKCS7UnPadding|no-error|"+cls, rank, fmt.Sprintf("PKCS7UnPadding returned %d bytes and no error for input that is not correctly padded (%s)", len(out), cls), c, t)
+					sig = "PKCS7UnPadding|no-error|" + cls
 				}
+				if !l.hit(sig, rank) {
+					return
+				}
+				var c any = map[string]any{"block_size": b, "data": hx(d), "family": fam}
+				switch {
+				case p:
+					what = "PKCS7UnPadding panicked at " + common.PanicSite(st)
+					c = map[string]any{"case": c, "stack": st}
+				case ok && err != nil:
+					what = fmt.Sprintf("PKCS7UnPadding returned %v for a correctly padded input", err)
+				case ok:
+					what = fmt.Sprintf("PKCS7UnPadding returned %d bytes, want the first %d", len(out), wn)
+				default:
+					what = fmt.Sprintf("PKCS7UnPadding returned %d bytes and no error for input that is not correctly padded (%s)", len(out), cls)
+				}
+				l.detail(sig, what, c, fmt.Sprintf("func TestReplay(t *testing.T) { d, _ := hex.DecodeString(%q); out, err := cryptz.PKCS7UnPadding(d, %d); t.Log(len(out), err) }", hx(d), b))
 			}
 		}
 		buf := make([]byte, 3*b)
@@ -816,13 +855,11 @@ func pkcs7Malformed(r *common.Run, a *agg) {
 func cbcUnpad(r *common.Run, a *agg) {
 	sc := newSec("cbcUnpad")
 	defer sc.done(r)
-	type sh struct{ ks, k, lay int }
+	type sh struct{ ks, k int }
 	var shards []sh
 	for _, ks := range keySizes {
 		for k := 1; k <= 3; k++ {
-			for lay := 0; lay < 2; lay++ {
-				shards = append(shards, sh{ks, k, lay})
-			}
+			shards = append(shards, sh{ks, k})
 		}
 	}
 	r.Parallel(len(shards), func(si int) {
@@ -832,29 +869,32 @@ func cbcUnpad(r *common.Run, a *agg) {
 		key, iv := pat(1, s.ks, 1), pat(1, 16, 2)
 		n := 16 * s.k
 		check := func(d []byte, fam string) {
-			ev++
 			wn, ok := wantUnpad(d, 16)
-			if !ok {
-				nt++
-			}
 			ct := rawCBC(key, iv, d)
-			b := layout(s.lay, ct, cryptz.AESCBCDecryptLen(ct))
-			var got int
-			var err error
-			_, st, p := common.Catch(func() { got, err = cryptz.AESCBCDecrypt(b.dst, b.src, key, iv) })
-			if p || (ok && (err != nil || got != wn || !bytes.Equal(b.dst[:wn], d[:wn]))) || (!ok && err == nil) {
-				cls := padClass(d, 16) + "/" + layNames[s.lay]
-				rank := int64(n)*1000 + int64(d[n-1])
-				c := map[string]any{"key": hx(key), "iv": hx(iv), "ciphertext": hx(ct), "decrypts_to_blocks": hx(d), "layout": layNames[s.lay], "family": fam}
-				switch {
-				case p:
-					l.report("AESCBCDecrypt|panic|"+cls, rank, "AESCBCDecrypt panicked at "+common.PanicSite(st), map[string]any{"case": c, "stack": st}, "")
-				case ok && err != nil:
-					l.report("AESCBCDecrypt|error-on-valid|"+cls, rank, fmt.Sprintf("AESCBCDecrypt returned %v for correctly padded blocks", err), c, "")
-				case ok:
-					l.report("AESCBCDecrypt|wrong-plaintext|"+cls, rank, fmt.Sprintf("AESCBCDecrypt returned n=%d, want %d", got, wn), c, "")
-				default:
-					l.report("AESCBCDecrypt|no-error|"+cls, rank, fmt.Sprintf("AESCBCDecrypt returned n=%d and no error although the decrypted blocks are not correctly padded (%s)", got, padClass(d, 16)), c, "")
+			var ls laySig
+			for lay := 0; lay < 2; lay++ {
+				ev++
+				if !ok || lay > 0 {
+					nt++
+				}
+				b := layout(lay, ct, cryptz.AESCBCDecryptLen(ct))
+				var got int
+				var err error
+				_, st, p := common.Catch(func() { got, err = cryptz.AESCBCDecrypt(b.dst, b.src, key, iv) })
+				if p || (ok && (err != nil || got != wn || !bytes.Equal(b.dst[:wn], d[:wn]))) || (!ok && err == nil) {
+					cls := "crafted-blocks/" + padClass(d, 16)
+					rank := int64(n)*1000 + int64(d[n-1])
+					c := map[string]any{"key": hx(key), "iv": hx(iv), "ciphertext": hx(ct), "decrypts_to_blocks": hx(d), "layout": layNames[lay], "family": fam}
+					switch {
+					case p:
+						l.report(ls.sig("AESCBCDecrypt|panic|"+cls, lay), rank, "AESCBCDecrypt panicked at "+common.PanicSite(st), map[string]any{"case": c, "stack": st}, "")
+					case ok && err != nil:
+						l.report(ls.sig("AESCBCDecrypt|error-on-valid|"+cls, lay), rank, fmt.Sprintf("AESCBCDecrypt returned %v for correctly padded blocks", err), c, "")
+					case ok:
+						l.report(ls.sig("AESCBCDecrypt|wrong-plaintext|"+cls, lay), rank, fmt.Sprintf("AESCBCDecrypt returned n=%d, want %d", got, wn), c, "")
+					default:
+						l.report(ls.sig("AESCBCDecrypt|no-error|"+cls, lay), rank, fmt.Sprintf("AESCBCDecrypt returned n=%d and no error although the decrypted blocks are not correctly padded (%s)", got, padClass(d, 16)), c, "")
+					}
 				}
 			}
 		}
